@@ -83,6 +83,9 @@ Ops(S) ==
       UNION {{[name |-> "add_node", p |-> pp[1], src |-> "S", x |-> pp[2], k |-> 0, deep |-> pp[3], pos |-> pos] :
                  pos \in IF Room(S) >= Need(Src, pp[2], pp[3]) THEN {PosNone, [t |-> "true", v |-> 0]} ELSE {}} :
              pp \in Parents(S) \X Live(Src) \X BOOLEAN}
+      \cup   \* x.copy_to(<a node of x's own branch>, deep=True): the copy of the branch as it was before the call
+      UNION {{[name |-> "add_node", p |-> p, src |-> "T", x |-> x, k |-> 0, deep |-> TRUE, pos |-> PosNone, via |-> "copy_to"] :
+                 p \in IF Room(S) >= Need(S, x, TRUE) THEN Desc(S, x) \cup {x} ELSE {}} : x \in Live(S)}
       \cup   \* the copy gets a node_id chosen by the caller / is asked to take another data_id
       (IF Room(S) >= 1 THEN
          {[name |-> "add_node", p |-> pp[1], src |-> "T", x |-> pp[2], k |-> 0, deep |-> pp[3], pos |-> PosNone, nid |-> 1] :
@@ -122,6 +125,10 @@ Ops(S) ==
               \cup   \* before=<a node that is not a child of the target> (possibly a clone of one)
               UNION {{[name |-> "move_to", x |-> xp[1], p |-> xp[2], pos |-> [t |-> "node", v |-> b]] :
                          b \in Live(S) \ (SeqSet(KidsOf(S, xp[2])) \cup {xp[1]})} :
+                     xp \in Live(S) \X Parents(S)}
+              \cup   \* before=<the moved node itself> / before=<neither bool, int nor node>
+              UNION {{[name |-> "move_to", x |-> xp[1], p |-> xp[2], pos |-> pos] :
+                         pos \in {[t |-> "node", v |-> xp[1]], [t |-> "other", v |-> 0]}} :
                      xp \in Live(S) \X Parents(S)}
             ELSE {})
       \cup {[name |-> "move_foreign", x |-> x] : x \in Live(S)}
